@@ -14,10 +14,10 @@ from .pool import pmap
 TITLES = [("a", 1), ("a", 2), ("a-1", 1), ("b", 2), ("A b", 3), ("É x", 2), ("a\nb", 1)]     # (a\nb: a setext heading over two lines)
 # target forms: "next" = (name)= before whatever follows, "quote" = before a block quote holding a titled admonition,
 # "attr" = an attribute id on a paragraph ({#name}), "dirname" = the :name: option of a titled directive
-TARGETS = [("x", "next"), ("a", "next"), ("Tt", "next"), ("w", "quote"), ("Kp", "attr"), ("dn", "dirname")]
+TARGETS = [("x", "next"), ("a", "next"), ("Tt", "next"), ("w", "quote"), ("Kp", "attr"), ("dn", "dirname"), ("z", "comment")]
 LINKS = ([(n, "text") for n in ("a", "a-1", "a-2", "a-1-1", "b", "a-b", "x", "zz", "A", "X", "tt", "Tt", "é-x", "w", "ab")]
-         + [(n, "text") for n in ("Kp", "kp", "dn", "DN")]
-         + [(n, "empty") for n in ("a", "x", "zz", "b", "Tt", "a-1", "w", "é-x", "KP", "dn")]
+         + [(n, "text") for n in ("Kp", "kp", "dn", "DN", "z")]
+         + [(n, "empty") for n in ("a", "x", "zz", "b", "Tt", "a-1", "w", "é-x", "KP", "dn", "z")]
          + [(n, "auto") for n in ("a", "x", "é-x", "zz", "w")])
 
 
@@ -59,6 +59,9 @@ def doc_text(items, links, wrap="none"):
                 lines += ["#" * it[2] + " " + it[1], ""]
         elif len(it) > 2 and it[2] == "attr":
             lines += ["{#%s}" % it[1], f"P{n + 1}", ""]
+        elif len(it) > 2 and it[2] == "comment":
+            # nothing that can carry the name follows: the target node keeps it
+            lines += [f"({it[1]})=", "% a comment", ""]
         elif len(it) > 2 and it[2] == "dirname":
             lines += ["```{admonition} Dt%d *em*" % (n + 1), f":name: {it[1]}", f"B{n + 1}", "```", ""]
         else:
@@ -242,24 +245,26 @@ def t_leg(ctx, quick, focus="C09"):
     for rec in r.records:
         rec["slug_func"] = "default"
     recs += r.records
-    # equal titles in a row: the suffix history (needs >= 3 equal titles; a-1 collisions)
     voc2 = [["h", s2c("a"), 1], ["h", s2c("a-1"), 1], ["h", s2c("a-1-1"), 1], ["h", s2c("a-2"), 2]]
-    r = tlc.run("Anchors", tlc.cfg(ctx, "an_mc2.cfg", consts(5 if quick else 6, [1, 2]), invariants=INVS + ["Emit"]),
-                wd=ctx.wd, timeout=3000, defs=defs(voc=voc2))
-    tlc.expect_holds(r, "Anchors[equal titles] M |= S")
-    ctx.add_tlc("Anchors_mc_titles", r, "title sequences over a, a-1, a-1-1, a-2")
-    for rec in r.records:
-        rec["slug_func"] = "default"
-    recs += r.records
-    for fn in ("reverse", "raise"):
-        r = tlc.run("Anchors", tlc.cfg(ctx, f"an_{fn}.cfg", consts(2 if quick else 3, [0, 3], slugfn=fn), invariants=INVS + ["Emit"],
-                                       constraints=["NoDupTargets"]), wd=ctx.wd, timeout=3000, defs=defs(links=REV_LINKS))
-        tlc.expect_holds(r, f"Anchors[{fn}] M |= S")
-        ctx.add_tlc(f"Anchors_{fn}", r, f"heading_slug_func = {fn}")
+    if focus == "C10":      # (the slug history and the slug functions are C10's; C09 takes the link resolution runs)
+        # equal titles in a row: the suffix history (needs >= 3 equal titles; a-1 collisions)
+        voc2 = [["h", s2c("a"), 1], ["h", s2c("a-1"), 1], ["h", s2c("a-1-1"), 1], ["h", s2c("a-2"), 2]]
+        r = tlc.run("Anchors", tlc.cfg(ctx, "an_mc2.cfg", consts(5 if quick else 6, [1, 2]), invariants=INVS + ["Emit"]),
+                    wd=ctx.wd, timeout=3000, defs=defs(voc=voc2))
+        tlc.expect_holds(r, "Anchors[equal titles] M |= S")
+        ctx.add_tlc("Anchors_mc_titles", r, "title sequences over a, a-1, a-1-1, a-2")
         for rec in r.records:
-            rec["slug_func"] = fn
-            rec["links"] = REV_LINKS
+            rec["slug_func"] = "default"
         recs += r.records
+        for fn in ("reverse", "raise"):
+            r = tlc.run("Anchors", tlc.cfg(ctx, f"an_{fn}.cfg", consts(2 if quick else 3, [0, 3], slugfn=fn), invariants=INVS + ["Emit"],
+                                           constraints=["NoDupTargets"]), wd=ctx.wd, timeout=3000, defs=defs(links=REV_LINKS))
+            tlc.expect_holds(r, f"Anchors[{fn}] M |= S")
+            ctx.add_tlc(f"Anchors_{fn}", r, f"heading_slug_func = {fn}")
+            for rec in r.records:
+                rec["slug_func"] = fn
+                rec["links"] = REV_LINKS
+            recs += r.records
     r = tlc.run("Anchors", tlc.cfg(ctx, "an_cov.cfg", consts(2, [1]), invariants=INVS, constraints=["NoDupTargets"]),
                 wd=ctx.wd, coverage=True, defs=defs())
     for act in ("Heading", "Target", "Resolve"):
